@@ -28,7 +28,7 @@ lines += [
     "",
     "Survivors, explained (DESIGN.md sec. 8.2):",
     "",
-    "* `S:C08e-...` - a two-site change; C08's own check does not see it (it needs TPs outnumbering the counted ground truths), both sites are caught by C10, C03 and C04.",
+    "* `S:C19n-...` - does not violate C19 as stated (under which label the error of a cross-label pair is filed is fixed neither by the statement nor by the documentation).",
     "* `S:C14h-...` - does not violate C14 as stated (no traffic-light table is documented for `fp_validation2d`; the changed converter stays self-consistent).",
 ]
 open(os.path.join(ROOT, "mutants", "KILLMATRIX.md"), "w").write("\n".join(lines) + "\n")
